@@ -79,6 +79,20 @@ def err_must_exit(fn, call_block, sink_pred):
             only_err = [x for x in sinks_ if x not in fn.reachable(ok_t)]
             if only_err:
                 return False, "the Err edge at %s reaches an output sink (%s)" % (fn.loc(sb), [fn.loc(x) for x in only_err])
+        # ... or falls through into the success path: a sink reachable from the Err edge without evaluating again (the call block itself
+        # is not crossed a second time, so a loop that reads and evaluates the next input does not count)
+        seen_, st_ = {err_t}, [err_t]
+        while st_:
+            x_ = st_.pop()
+            if x_ == call_block:
+                continue
+            for s_ in fn.succ(x_):
+                if s_ not in seen_:
+                    seen_.add(s_)
+                    st_.append(s_)
+        joined = [x for x in seen_ if x != call_block and fn.term(x)["k"] == "call" and sink_pred(fn.callee(x) or "")]
+        if joined and not (seen_ & {call_block}):
+            return False, "after the Err edge at %s the run goes on to an output sink (%s): the error is reported but not fatal" % (fn.loc(sb), [fn.loc(x) for x in joined])
         zero = [x for x in reach if fn.term(x)["k"] == "call" and fn.callee(x) == EXIT and exit_code(fn, x) == 0 and x not in fn.reachable(ok_t)]
         if zero:
             return False, "the Err edge at %s reaches exit(0) (%s)" % (fn.loc(sb), [fn.loc(x) for x in zero])
@@ -113,6 +127,20 @@ def run(ctx):
     from rules import c06
     c06.output_file_rule(ctx, "C19.R5", ctx.cli)
     main = M.Fn(cli.mir_fn("blots::main"), "blots::main")
+    # ---------------- R8 nothing but the outputs object goes to stdout
+    ctx.rule("C19.R8", "evaluation writes nothing to stdout: no function reachable from the evaluator (built-ins such as print included) calls the stdout printing primitive - diagnostics and `print` go to stderr - so the outputs object is the only thing on stdout", floor=1)
+    from rules import c02 as c02_
+    cgx = M.CallGraph([core, cli, ctx.wasm])
+    reach_ = sorted(n_ for n_ in cgx.reachable_from(c02_.EVAL_ROOTS) if n_ in cgx.fns)
+    n_out = 0
+    for n_ in reach_:
+        fn_ = M.Fn(cgx.fns[n_], n_)
+        outs = [b for b in fn_.call_blocks() if (fn_.callee(b) or "").endswith("io::stdio::_print") or (fn_.callee(b) or "").endswith("io::stdio::stdout") or (fn_.callee(b) or "").endswith("io::stdio::print_to")]
+        for b in outs:
+            n_out += 1
+            ctx.inst("C19.R8", "%s#stdout[%d]" % (n_.replace("blots_core::", ""), outs.index(b)), False, "writes to stdout during evaluation (println! / print! / io::stdout)", fn_.loc(b))
+    ctx.inst("C19.R8", "evaluator#stdout-writers", n_out == 0, "%d functions reachable from the evaluator scanned; stdout writers: %d" % (len(reach_), n_out), None)
+
     # ---------------- R1 exit status <=> outputs object
     ctx.rule("C19.R1", "on every Err edge of parsing / evaluation / validation / input parsing the process must reach exit(!=0) without emitting outputs; outputs are written only after success; nothing exits non-zero after writing outputs", floor=8)
     is_sink = lambda d: d == "blots::write_outputs"
